@@ -7,6 +7,6 @@ set -e
 R=$(cd "$1" && pwd); P=$2; T=${3:-quick}
 A=/tmp/verif-alt-$(basename "$R")
 mkdir -p "$A"
-rsync -a --delete --exclude .git --exclude 'replay/' --exclude '.build/work' /verif/ "$A"/
+rsync -a --delete --exclude .git --exclude 'replay/' --exclude '.build/work' /verif/ "$A"/ || [ $? -eq 24 ]
 sed -i "s|=> /repo|=> $R|" "$A/harness/go.mod"
 cd "$A" && VERIF_REPO="$R" ./check "$P" --tier "$T"
